@@ -755,42 +755,80 @@ func genWorld(r *rng, f Features) *World {
 		}
 	}
 	if f.Ingress && len(targets) > 0 {
+		// a third of the worlds with ingress resources are ingress-heavy: a workload with several ports behind one
+		// service that exposes all of them, and several Ingress objects that pick their port by name
+		heavy := r.chance(1, 3)
 		for i, n := 0, r.between(1, 2); i < n; i++ {
 			t := pick(r, targets)
-			svc := fmt.Sprintf("svc%d", i)
-			sp := corev1.ServicePort{Name: "p", Port: 80, Protocol: corev1.ProtocolTCP}
-			if len(t.ports) > 0 {
-				cp := t.ports[0]
-				if cp.Name != "" && r.chance(1, 2) {
-					sp.TargetPort = intstr.FromString(cp.Name)
-				} else {
-					sp.TargetPort = intstr.FromInt32(cp.ContainerPort)
+			if heavy {
+				for _, c := range targets {
+					if len(c.ports) > len(t.ports) {
+						t = c
+					}
 				}
 			}
+			svc := fmt.Sprintf("svc%d", i)
+			// a service with up to three ports, each aimed at one of the target's container ports by number or by name
+			var sps []corev1.ServicePort
+			for k := 0; k < 3 && (k == 0 || (k < len(t.ports) && (heavy || r.chance(1, 2)))); k++ {
+				sp := corev1.ServicePort{Name: fmt.Sprintf("p%d", k), Port: int32(80 + k), Protocol: corev1.ProtocolTCP}
+				if k < len(t.ports) {
+					cp := t.ports[k]
+					if cp.Name != "" && r.chance(1, 2) {
+						sp.TargetPort = intstr.FromString(cp.Name)
+					} else {
+						sp.TargetPort = intstr.FromInt32(cp.ContainerPort)
+					}
+					if cp.Protocol != "" {
+						sp.Protocol = cp.Protocol
+					}
+				}
+				sps = append(sps, sp)
+			}
 			w.Docs = append(w.Docs, toDoc("Service", t.ns, svc, &corev1.Service{TypeMeta: metav1.TypeMeta{APIVersion: "v1", Kind: "Service"},
-				ObjectMeta: metav1.ObjectMeta{Name: svc, Namespace: t.ns}, Spec: corev1.ServiceSpec{Selector: svcSelector(r, t.labels), Ports: []corev1.ServicePort{sp}}}))
-			if r.chance(1, 2) {
-				pt := netv1.PathTypePrefix
-				be := netv1.IngressBackend{Service: &netv1.IngressServiceBackend{Name: svc, Port: netv1.ServiceBackendPort{Number: 80}}}
-				if r.chance(1, 2) {
-					be.Service.Port = netv1.ServiceBackendPort{Name: "p"}
+				ObjectMeta: metav1.ObjectMeta{Name: svc, Namespace: t.ns}, Spec: corev1.ServiceSpec{Selector: svcSelector(r, t.labels), Ports: sps}}))
+			backend := func() netv1.IngressBackend {
+				sp := pick(r, sps)
+				be := netv1.IngressBackend{Service: &netv1.IngressServiceBackend{Name: svc, Port: netv1.ServiceBackendPort{Number: sp.Port}}}
+				if heavy || r.chance(1, 2) {
+					be.Service.Port = netv1.ServiceBackendPort{Name: sp.Name}
 				}
-				ing := &netv1.Ingress{TypeMeta: metav1.TypeMeta{APIVersion: "networking.k8s.io/v1", Kind: "Ingress"},
-					ObjectMeta: metav1.ObjectMeta{Name: fmt.Sprintf("ing%d", i), Namespace: t.ns},
-					Spec: netv1.IngressSpec{Rules: []netv1.IngressRule{{Host: "h.example", IngressRuleValue: netv1.IngressRuleValue{HTTP: &netv1.HTTPIngressRuleValue{
-						Paths: []netv1.HTTPIngressPath{{Path: "/", PathType: &pt, Backend: be}}}}}}}}
-				if r.chance(1, 3) {
-					ing.Spec.DefaultBackend = &be
+				return be
+			}
+			// one to three front doors to the same service: several Ingress objects and Routes may lead to it,
+			// each through a port of its own choice
+			nq := r.between(1, 3)
+			if heavy {
+				nq = r.between(2, 4)
+			}
+			for q := 0; q < nq; q++ {
+				if heavy || r.chance(2, 3) {
+					pt := netv1.PathTypePrefix
+					var paths []netv1.HTTPIngressPath
+					for x, nx := 0, r.between(1, 2); x < nx; x++ {
+						paths = append(paths, netv1.HTTPIngressPath{Path: fmt.Sprintf("/%d", x), PathType: &pt, Backend: backend()})
+					}
+					ing := &netv1.Ingress{TypeMeta: metav1.TypeMeta{APIVersion: "networking.k8s.io/v1", Kind: "Ingress"},
+						ObjectMeta: metav1.ObjectMeta{Name: fmt.Sprintf("ing%d-%d", i, q), Namespace: t.ns},
+						Spec:       netv1.IngressSpec{Rules: []netv1.IngressRule{{Host: "h.example", IngressRuleValue: netv1.IngressRuleValue{HTTP: &netv1.HTTPIngressRuleValue{Paths: paths}}}}}}
+					if r.chance(1, 3) {
+						be := backend()
+						ing.Spec.DefaultBackend = &be
+					}
+					w.Docs = append(w.Docs, toDoc("Ingress", t.ns, ing.Name, ing))
+				} else {
+					rt := &routev1.Route{TypeMeta: metav1.TypeMeta{APIVersion: "route.openshift.io/v1", Kind: "Route"},
+						ObjectMeta: metav1.ObjectMeta{Name: fmt.Sprintf("rt%d-%d", i, q), Namespace: t.ns},
+						Spec:       routev1.RouteSpec{Host: "h.example", To: routev1.RouteTargetReference{Kind: "Service", Name: svc}}}
+					if r.chance(1, 2) {
+						sp := pick(r, sps)
+						rt.Spec.Port = &routev1.RoutePort{TargetPort: intstr.FromString(sp.Name)}
+						if r.chance(1, 3) {
+							rt.Spec.Port = &routev1.RoutePort{TargetPort: sp.TargetPort}
+						}
+					}
+					w.Docs = append(w.Docs, toDoc("Route", t.ns, rt.Name, rt))
 				}
-				w.Docs = append(w.Docs, toDoc("Ingress", t.ns, ing.Name, ing))
-			} else {
-				rt := &routev1.Route{TypeMeta: metav1.TypeMeta{APIVersion: "route.openshift.io/v1", Kind: "Route"},
-					ObjectMeta: metav1.ObjectMeta{Name: fmt.Sprintf("rt%d", i), Namespace: t.ns},
-					Spec:       routev1.RouteSpec{Host: "h.example", To: routev1.RouteTargetReference{Kind: "Service", Name: svc}}}
-				if r.chance(1, 2) {
-					rt.Spec.Port = &routev1.RoutePort{TargetPort: intstr.FromString("p")}
-				}
-				w.Docs = append(w.Docs, toDoc("Route", t.ns, rt.Name, rt))
 			}
 		}
 	}
